@@ -18,8 +18,8 @@ MANIFEST = {
 
 INVARIANTS = ["C04_Tally"]
 PROPERTIES = ["C04_Lifecycle"]
-QUICK = ['chain2', 'retry_s']
-THOROUGH = ['chain2', 'retry_s', 'nest_s', 'diamond', 'jpim_s', 'upd2', 'grp2', 'jpim', 'retry']
+QUICK = ['chain2', 'alw', 'retry_s']
+THOROUGH = ['chain2', 'alw', 'retry_s', 'nest_s', 'diamond', 'jpim_s', 'upd2', 'grp2', 'jpim', 'retry']
 FINDINGS = [("uncchild", "upd2", ["C04_Tally"])]
 
 
